@@ -296,6 +296,78 @@ def pushAtElem [Inhabited α] (s : ArrS α) (k i : Int) : ArrS α × Res Unit :=
   | .raised e => (s, .raised e)
   | .ub => (s, .ub)
 
+/-- the record addresses `get(a, k0), get(a, k1), …` return -/
+def getPtrs (s : ArrS α) : List Int → Res (List Ptr)
+  | [] => .ok []
+  | k :: ks =>
+    match s.getPtr k with
+    | .raised e => .raised e
+    | .ub => .ub
+    | .ok p => match getPtrs s ks with
+      | .ok ps => .ok (p :: ps)
+      | r => r
+
+/-- the loop of `Array_Concat` / `Array_Assign` over an operand of pointers: `Array_Alloc(a, k); assign(record k, *item)`, `k++` -/
+def wrPtrsFrom [Inhabited α] (s : ArrS α) : Nat → List Ptr → Option (ArrS α)
+  | _, [] => some s
+  | k, p :: ps =>
+    match s.zero k with
+    | none => none
+    | some s1 => match s1.deref p with
+      | none => none                               -- dangling pointer or unwritten record
+      | some x => match s1.wr k x with
+        | none => none
+        | some s2 => s2.wrPtrsFrom (k + 1) ps
+
+/-- `Array_Concat(a, obj)` with `obj` a Tuple of pointers: `nitems += len(obj); Array_Reserve_More;` then the loop -/
+def concatPtrs [Inhabited α] (s : ArrS α) (ps : List Ptr) : ArrS α × Res Unit :=
+  let s1 := ({ s with nitems := s.nitems + ps.length } : ArrS α).reserveMore
+  match s1.wrPtrsFrom (s1.nitems - ps.length) ps with
+  | some s2 => (s2, .ok ())
+  | none => (s, .ub)
+
+/-- `concat(a, tuple(get(a, k0), …))` -/
+def concatElems [Inhabited α] (s : ArrS α) (ks : List Int) : ArrS α × Res Unit :=
+  match s.getPtrs ks with
+  | .ok ps => s.concatPtrs ps
+  | .raised e => (s, .raised e)
+  | .ub => (s, .ub)
+
+/-- `assign(a, tuple(get(a, k0), …))`: `Array_Clear` (the block is freed: generation bumped), `malloc` of the new block, the loop -/
+def assignElems [Inhabited α] (s : ArrS α) (ks : List Int) : ArrS α × Res Unit :=
+  match s.getPtrs ks with
+  | .raised e => (s, .raised e)
+  | .ub => (s, .ub)
+  | .ok ps => match s.clear with
+    | (c, .ok ()) =>
+      if ps.length = 0 then (c, .ok ())
+      else
+        let m : ArrS α := ⟨Array.replicate ps.length none, ps.length, c.blk + 1⟩
+        (match m.wrPtrsFrom 0 ps with
+        | some s2 => (s2, .ok ())
+        | none => (s, .ub))
+    | r => r
+
+/-- `set(a, i, get(a, k))`: bounds check of `i`, then `assign(record i, *obj)`; `elemSelfAssignOk = false`: the element type's
+    `assign(x, x)` is a use after free (String before fix 744a45f) -/
+def setElem (s : ArrS α) (i k : Int) (elemSelfAssignOk : Bool := true) : ArrS α × Res Unit :=
+  match s.getPtr k with
+  | .raised e => (s, .raised e)
+  | .ub => (s, .ub)
+  | .ok p =>
+    let j := normIdx s.nitems i
+    if j < 0 ∨ j ≥ (s.nitems : Int) then (s, .raised .indexOutOfBounds)
+    else if !elemSelfAssignOk && j.toNat == p.idx then (s, .ub)
+    else match s.rd j.toNat, s.deref p with
+      | some _, some x => (match s.wr j.toNat x with
+        | some s1 => (s1, .ok ())
+        | none => (s, .ub))
+      | _, _ => (s, .ub)
+
+def remElem [BEq α] (s : ArrS α) (k : Int) : ArrS α × Res Unit :=
+  match s.get k with
+  | .ok x => s.rem x | .raised e => (s, .raised e) | .ub => (s, .ub)
+
 /-- `assign(a, a)` since fix a3140e4 -/
 def assignSelf (s : ArrS α) : ArrS α × Res Unit := (s, .ok ())
 
@@ -603,10 +675,74 @@ def chainFrom (s : LstS α) : Nat → Option Nat → Option (List α)
     | none => none
     | some nd => (chainFrom s fuel nd.next).map (nd.val :: ·)
 
-def step [BEq α] [Inhabited α] (s : LstS α) : Op α → LstS α × Res Unit
+/-- as `Lst.step`: a `resize` that links never-constructed records of a type whose zero record is not a value does what
+    `List_Resize` does to the nodes and reports `.ub` (known finding KF-C04-list-resize-raw) -/
+def step [BEq α] [ZeroIsValue α] (s : LstS α) : Op α → LstS α × Res Unit
   | .push x => s.push x | .pop => s.pop | .pushAt x i => s.pushAt x i | .popAt i => s.popAt i
   | .set i x => s.set i x | .rem x => s.rem x | .concat ys => s.concat ys | .append x => s.push x
-  | .resize n => s.resize n | .sort f => s.sortBy f | .assign ys b => s.assign ys b
+  | .resize n => if !ZeroIsValue.zeroOk α && decide (n > s.nitems) then ((s.resize n).1, .ub) else s.resize n
+  | .sort f => s.sortBy f | .assign ys b => s.assign ys b
+
+/-! ### pointers to the List's own nodes as the operand (`tuple(get(l, k0), …)`) -/
+
+/-- the node addresses `get(l, k0), get(l, k1), …` return -/
+def getNodes (s : LstS α) : List Int → Res (List Nat)
+  | [] => .ok []
+  | k :: ks =>
+    match s.nodeAt k with
+    | .raised e => .raised e
+    | .ub => .ub
+    | .ok a => match getNodes s ks with
+      | .ok as => .ok (a :: as)
+      | r => r
+
+/-- `foreach (item in obj) List_Push(self, item)` with `obj` a Tuple of node addresses: each node is READ when its turn comes -/
+def pushNodes (s : LstS α) : List Nat → LstS α × Res Unit
+  | [] => (s, .ok ())
+  | a :: as => match s.node a with
+    | none => (s, .ub)                             -- the node was freed: use after free
+    | some nd => match s.push nd.val with
+      | (s1, .ok ()) => s1.pushNodes as
+      | r => r
+
+/-- `concat(l, tuple(get(l, k0), …))` -/
+def concatElems (s : LstS α) (ks : List Int) : LstS α × Res Unit :=
+  match s.getNodes ks with
+  | .ok as => s.pushNodes as
+  | .raised e => (s, .raised e)
+  | .ub => (s, .ub)
+
+/-- `assign(l, tuple(get(l, k0), …))`: `List_Clear` frees every node, then `get(obj, i)` hands out the dangling addresses -/
+def assignElems (s : LstS α) (ks : List Int) : LstS α × Res Unit :=
+  match s.getNodes ks with
+  | .raised e => (s, .raised e)
+  | .ub => (s, .ub)
+  | .ok as => match s.clear with
+    | (c, .ok ()) => (match c.pushNodes as with
+      | (c1, .ok ()) => (c1, .ok ())
+      | (_, r) => (s, r))
+    | r => r
+
+/-- `set(l, i, get(l, k))`: `assign(List_At(l, i), node k)`; `elemSelfAssignOk = false`: the element type's `assign(x, x)` is a use
+    after free (String before fix 744a45f) -/
+def setElem (s : LstS α) (i k : Int) (elemSelfAssignOk : Bool := true) : LstS α × Res Unit :=
+  match s.nodeAt k with
+  | .raised e => (s, .raised e)
+  | .ub => (s, .ub)
+  | .ok src => match s.nodeAt i with
+    | .raised e => (s, .raised e)
+    | .ub => (s, .ub)
+    | .ok dst =>
+      if !elemSelfAssignOk && dst == src then (s, .ub)
+      else match s.node src with
+        | none => (s, .ub)
+        | some nd => match s.setVal dst nd.val with
+          | some s1 => (s1, .ok ())
+          | none => (s, .ub)
+
+def remElem [BEq α] (s : LstS α) (k : Int) : LstS α × Res Unit :=
+  match s.get k with
+  | .ok x => s.rem x | .raised e => (s, .raised e) | .ub => (s, .ub)
 
 end LstS
 
@@ -891,6 +1027,10 @@ def memLoop [BEq α] (ident : α → Nat) (s : TupS α) (x : α) : Nat → Optio
   | 0, some (.item _) => none
   | fuel + 1, some (.item c) => if c == x then some true else memLoop ident s x fuel (s.iterNext ident c)
 def mem [BEq α] (ident : α → Nat) (s : TupS α) (x : α) (fuel : Nat) : Option Bool := memLoop ident s x fuel s.iterInit
+
+def remElem [BEq α] (s : TupS α) (k : Int) : TupS α × Res Unit :=
+  match s.get k with
+  | .ok x => s.rem x | .raised e => (s, .raised e) | .ub => (s, .ub)
 
 def step [BEq α] (s : TupS α) : Op α → TupS α × Res Unit
   | .push x => s.push x | .pop => s.pop | .pushAt x i => s.pushAt x i | .popAt i => s.popAt i
